@@ -57,7 +57,10 @@ def install_mem():
 
 
 KINDS = ('idx', 'neg', 'np', 'key', 'slice', 'iter', 'part', 'copy', 'pf2', 'pf1',
-         'items', 'negslice', 'via')
+         'items', 'negslice', 'via', 'nested')
+# 'nested': an iteration that is suspended after some examples while the same
+# cache is read by index, from the end, and completely through a copy; then the
+# iteration goes on
 # 'via': a full iteration through one of the copying consumption paths of
 # vlib/vias.py (copy, frozen copy, lazy apply, profiling wrapper ...): they all
 # share the one cache
@@ -154,6 +157,16 @@ class World:
             return list(enumerate(hd.prefetch(2, 4, 't')))
         if kind == 'pf1':
             return list(enumerate(hd.prefetch(1, 2)))
+        if kind == 'nested':
+            out = []
+            for pos, v in enumerate(hd):
+                out.append((pos, v))
+                if pos == i % n:
+                    j = (pos + 2) % n
+                    out.append((j, hd[j]))
+                    out.append((n - 1, hd[-1]))
+                    out += list(enumerate(hd.copy()))
+            return out
         if kind == 'via':
             import warnings
             with warnings.catch_warnings():
